@@ -352,15 +352,40 @@ func c14(run *ev.Run) int {
 		c14Census(run, c.key()+"/census", []string{c.key()})
 		fmt.Fprintf(os.Stderr, "progress: injected %s done at %s\n", c.key(), time.Now().Format("15:04:05.000"))
 	}
+	c14ReadLimit(run, srv)
 	run.Set("distinct_interleaving_signatures", len(signatures))
 	run.Count("interleaving.signatures", int64(len(signatures)))
 	serverPanicCheck(run, srv, "c14")
 	return run.Finish("cases", "ops.returned", "census.runs", "body.close.checked", "send_after_finish.checked", "sticky.checked", "injected.cases")
 }
 
+var c14Alive struct {
+	mu  sync.Mutex
+	fns []context.CancelFunc
+}
+
+func c14KeepAlive(cancel context.CancelFunc) {
+	c14Alive.mu.Lock()
+	c14Alive.fns = append(c14Alive.fns, cancel)
+	c14Alive.mu.Unlock()
+}
+
+func c14ReleaseContexts() {
+	c14Alive.mu.Lock()
+	fns := c14Alive.fns
+	c14Alive.fns = nil
+	c14Alive.mu.Unlock()
+	for _, f := range fns {
+		f()
+	}
+}
+
 // c14Census waits for quiescence and reports library goroutines that remain.
+// The contexts of the calls that were closed properly are still alive while it
+// looks; they are cancelled afterwards.
 func c14Census(run *ev.Run, key string, cases []string) {
 	run.Count("census.runs", 1)
+	defer c14ReleaseContexts()
 	var left []string
 	for i := 0; i < 100; i++ {
 		left = libraryGoroutines()
@@ -434,7 +459,14 @@ func c14Run(run *ev.Run, srv *svc.Server, c c14Case) {
 	}
 	defer func() {
 		call.ReleaseNow()
-		cancel()
+		if cr.Hung || c.client.cancels {
+			cancel()
+			return
+		}
+		// A client that closed both sides owes the library nothing more: its
+		// context stays alive until the goroutine census has run, as the context
+		// of a long-lived caller would.
+		c14KeepAlive(cancel)
 	}()
 	// I1: every op returned
 	for _, o := range cr.Ops {
@@ -646,4 +678,84 @@ func c14Run(run *ev.Run, srv *svc.Server, c c14Case) {
 	if len(c.inject) > 0 && c.client.name == "S,X,CP" {
 		run.Sample(map[string]any{"case": key, "ops": describeOps(cr)})
 	}
+}
+
+// c14ReadLimit: the receiver rejects a message locally (client read limit)
+// while the stream is still open in both directions and the handler is waiting
+// for the client's next move. The client program is an ordinary one (send,
+// receive, close request, receive the rest, close response); every call must
+// return, the rejected Receive included.
+func c14ReadLimit(run *ev.Run, srv *svc.Server) {
+	type rl struct {
+		kind    svc.Kind
+		ops     []string
+		handler string
+		build   func() *svc.Program
+	}
+	big := func() svc.Step { return svc.Step{Op: "send", Msg: gen.New(990, 400, true)} }
+	small := func() svc.Step { return svc.Step{Op: "send", Msg: gen.New(991, 10, true)} }
+	families := []rl{
+		{svc.Bidi, []string{"S", "R", "CR", "Rall", "CP"}, "recv1-sendbig-drain-ok", func() *svc.Program {
+			return &svc.Program{Steps: []svc.Step{{Op: "recv"}, big(), {Op: "recvall"}}}
+		}},
+		{svc.Bidi, []string{"S", "R", "S", "CR", "Rall", "CP"}, "recv1-sendbig-drain-send1-ok", func() *svc.Program {
+			return &svc.Program{Steps: []svc.Step{{Op: "recv"}, big(), {Op: "recvall"}, small()}}
+		}},
+		{svc.ServerStream, []string{"CALL", "R", "R", "CP"}, "sendbig-send1-ok", func() *svc.Program {
+			return &svc.Program{Steps: []svc.Step{{Op: "recv"}, big(), small()}}
+		}},
+	}
+	var wg sync.WaitGroup
+	for _, p := range svc.Protocols {
+		for _, f := range families {
+			key := fmt.Sprintf("c14/readlimit/h2=true/%s/%s/client=%s/handler=%s", p, f.kind, strings.Join(f.ops, ","), f.handler)
+			if !run.Want(key) {
+				continue
+			}
+			wg.Add(1)
+			go func(p string, f rl, key string) {
+				defer wg.Done()
+				call := srv.Reg.New("c14rl", f.build())
+				defer srv.Reg.Drop(call)
+				cs := srv.Clients(true, append(svc.ProtoOpts(p, "proto"), connect.WithReadMaxBytes(100))...)
+				defer cs.Tap.Forget(call.ID)
+				ctx, cancel := context.WithCancel(context.Background())
+				sd := &scripted{cs: cs, kind: f.kind, callID: call.ID, ctx: ctx, cancel: cancel, timeout: 15 * time.Second, handlerDone: call.Log.Finished}
+				cr := sd.run(f.ops)
+				if cr.Hung {
+					defer cancel()
+				} else {
+					c14KeepAlive(cancel)
+				}
+				run.Count("cases", 1)
+				run.Count("readlimit.cases", 1)
+				run.Eval(fmt.Sprintf("readlimit|%s|%s|%s", p, f.kind, f.handler))
+				detail := map[string]any{"case": key, "client_read_limit": 100, "ops": describeOps(cr)}
+				for _, o := range cr.Ops {
+					run.Count("ops.returned", 1)
+					if !o.Returned {
+						detail["goroutines"] = trunc(o.Dump, 20000)
+						run.Violation(key+"/hang", fmt.Sprintf("client operation %s did not return within 15 s (the handler had answered and was waiting for the client)", o.Op), detail)
+						cancel()
+						call.ReleaseNow()
+						return
+					}
+				}
+				sawErr := false
+				for _, o := range cr.Ops {
+					if o.Op == "R" && o.Err != nil && !errors.Is(o.Err, io.EOF) {
+						sawErr = true
+					}
+				}
+				if !sawErr {
+					run.Violation(key+"/not-rejected", "no Receive reported the over-limit message", detail)
+				}
+				if fin, _ := waitHandler(call, 5*time.Second); !fin {
+					run.Violation(key+"/handler", "the handler did not finish within 5 s of the client closing both sides", detail)
+				}
+			}(p, f, key)
+		}
+	}
+	wg.Wait()
+	c14Census(run, "c14/readlimit/census", []string{"c14/readlimit"})
 }
